@@ -155,7 +155,8 @@ Parsers == {"schnorr.Verify", "eddsa.Verify", "eddsa.UnmarshalBinary", "bls.Veri
             "bdn.AggregateSignatures", "cosi.Verify", "proof.HashVerify", "ecies.Decrypt", "anon.Decrypt",
             "anon.Verify", "vss-pedersen.Deal", "vss-rabin.Deal", "vss-pedersen.EncryptedDeal",
             "vss-rabin.EncryptedDeal", "tbls.VerifyPartial", "tbls.Recover"}
-Muts == {"valid", "empty", "trunc1", "truncHalf", "truncTo1", "extend1", "extendBig",
+\* "truncEvery": every prefix of a valid input (lengths 0..len-1), named by the field the cut falls in
+Muts == {"valid", "empty", "trunc1", "truncHalf", "truncTo1", "truncEvery", "extend1", "extendBig",
          "flipFirst", "flipMid", "flipLast", "all00", "allff", "random", "randomLen", "field"}
 
 ParseAllowed(parser, mut) == IF mut = "valid" THEN {"ok"} ELSE {"ok", "error"}
